@@ -1890,6 +1890,7 @@ enum Enum<T, K> {
 */
 
 #![cfg_attr(docsrs, feature(doc_auto_cfg))]
+#![allow(unexpected_cfgs)]
 
 mod common;
 #[allow(dead_code)]
@@ -1899,8 +1900,10 @@ mod trait_handlers;
 
 use std::collections::HashMap;
 
+#[cfg(not(magiclen_educe_verif))]
 use proc_macro::TokenStream;
 use supported_traits::Trait;
+#[cfg_attr(magiclen_educe_verif, allow(unused_imports))]
 use syn::{
     parse::{Parse, ParseStream},
     parse_macro_input,
@@ -2115,6 +2118,7 @@ fn derive_input_handler(ast: DeriveInput) -> syn::Result<proc_macro2::TokenStrea
     Ok(token_stream)
 }
 
+#[cfg(not(magiclen_educe_verif))]
 #[proc_macro_derive(Educe, attributes(educe))]
 pub fn educe_derive(input: TokenStream) -> TokenStream {
     struct MyDeriveInput(proc_macro2::TokenStream);
@@ -2132,4 +2136,15 @@ pub fn educe_derive(input: TokenStream) -> TokenStream {
     let derive_input = parse_macro_input!(input as MyDeriveInput);
 
     derive_input.0.into()
+}
+
+/// Verification hook (only with `--cfg magiclen_educe_verif`): the same entry point as
+/// `educe_derive`, over `proc_macro2` tokens, so the crate can be built as an ordinary library
+/// and driven in-process. Off by default; the shipped proc macro is unchanged.
+#[cfg(magiclen_educe_verif)]
+pub fn educe_derive_verif(input: proc_macro2::TokenStream) -> proc_macro2::TokenStream {
+    match syn::parse2::<DeriveInput>(input).and_then(derive_input_handler) {
+        Ok(token_stream) => token_stream,
+        Err(error) => error.to_compile_error(),
+    }
 }
